@@ -191,6 +191,36 @@ theorem negated_regex_matches_empty (rx : List Char → List Char → Bool) (l :
     evalLeaf rx .nre .none l = true := by
   simp [evalLeaf]
 
+/-! One theorem per operator: what each comparison returns on an empty (None) field, whatever the
+literal.  The logic is two-valued — an empty field makes the comparison *false*, not unknown — so
+`not` over a comparison on an empty field is *true*, and is not the opposite comparison. -/
+
+theorem empty_eq (rx : List Char → List Char → Bool) (l : Lit) : evalLeaf rx .eq .none l = false := rfl
+theorem empty_ne (rx : List Char → List Char → Bool) (l : Lit) : evalLeaf rx .ne .none l = false := rfl
+theorem empty_lt (rx : List Char → List Char → Bool) (l : Lit) : evalLeaf rx .lt .none l = false := rfl
+theorem empty_le (rx : List Char → List Char → Bool) (l : Lit) : evalLeaf rx .le .none l = false := rfl
+theorem empty_gt (rx : List Char → List Char → Bool) (l : Lit) : evalLeaf rx .gt .none l = false := rfl
+theorem empty_ge (rx : List Char → List Char → Bool) (l : Lit) : evalLeaf rx .ge .none l = false := rfl
+theorem empty_re (rx : List Char → List Char → Bool) (l : Lit) : evalLeaf rx .re .none l = false := by
+  cases l <;> rfl
+theorem empty_nre (rx : List Char → List Char → Bool) (l : Lit) : evalLeaf rx .nre .none l = true := rfl
+
+/-- `not` is not folded into the comparison below it: on a row whose compared field is empty,
+`not (x op lit)` holds for each of `== != < <= > >=`, while the opposite comparison
+(`!=` for `==`, `>=` for `<`, …) does not. -/
+theorem not_is_not_folded (rx : List Char → List Char → Bool) (op : Op) (hop : op ≠ .re ∧ op ≠ .nre)
+    (i : Nat) (l : Lit) (row : List Cell) (hrow : (row.getD i noCell).val = .none) :
+    evalCond rx row (.not (.leaf op i l)) = true ∧ evalCond rx row (.leaf op.negated i l) = false := by
+  cases op <;> simp_all [evalCond, evalLeaf, Op.negated]
+
+/-- … and for the regex pair the folding would be right only by accident of the definition:
+`not (x ~ p)` and `x !~ p` agree on every value, empty or not (strings are the only values a regex
+is applied to after the type check). -/
+theorem not_re_is_nre (rx : List Char → List Char → Bool) (i : Nat) (p : List Char) (row : List Cell)
+    (hrow : (row.getD i noCell).val = .none ∨ ∃ s, (row.getD i noCell).val = .str s) :
+    evalCond rx row (.not (.leaf .re i (.str p))) = evalCond rx row (.leaf .nre i (.str p)) := by
+  rcases hrow with h | ⟨s, h⟩ <;> simp only [evalCond, evalLeaf, h] <;> simp
+
 /-- on a non-empty string `!~` is exactly the negation of `~` -/
 theorem negated_regex_is_negation (rx : List Char → List Char → Bool) (s p : List Char) :
     evalLeaf rx .nre (.str s) (.str p) = !evalLeaf rx .re (.str s) (.str p) := by
@@ -242,6 +272,99 @@ theorem parse_print_select (proj : Proj) (rels : List String) (ws : List (Cond C
     ∀ n, 3 * (printQuery proj rels ws).length ≤ n →
       parseSelect n (printQuery proj rels ws) = .ok { proj := proj, rels := rels, cond := whereCond ws } :=
   parseSelect_print_aux proj rels ws hp hw
+
+/-- precedence and associativity ("and/or/not with parentheses"), as a structural theorem: for every
+condition written without parentheses around its connectives (`Loose`: members are comparisons or
+parenthesised groups; full conjunctions `a and … and a` joined by `or`; optionally the last
+conjunction ends in `not` followed by another such condition), the parser returns exactly the tree
+`Loose.tree`: `and` binds tighter than `or`; both are n-ary and flat (`A and B and C` is one `and`
+with three members, no nesting to either side); `not` takes everything to its right up to the end of
+the enclosing group, so `not A or B` is `not (A or B)` and `A and not B or C` is
+`A and not (B or C)` (recorded behaviour: the documentation does not state how far `not` reaches). -/
+theorem precedence_and_associativity (l : Loose) (h : l.wf = true) :
+    ∀ n, 3 * l.toks.length ≤ n → ∀ rest, NoAnd rest → NoOr rest →
+      parseDisj n (l.toks ++ rest) = .ok (l.tree, rest) :=
+  Loose.parse l h
+
+/-- instances: the token text `not A or B and C` and its tree; `A and B and C or D`;
+`A and not B or C` -/
+example (A B C : Cond ColRef) :
+    (Loose.neg [] [] (.plain [[A]] [B, C])).toks = .not_ :: (pr 2 A ++ .or_ :: (pr 2 B ++ .and_ :: pr 2 C))
+    ∧ (Loose.neg [] [] (.plain [[A]] [B, C])).tree = .not (.or [A, .and [B, C]]) := by
+  refine ⟨?_, rfl⟩
+  simp [Loose.toks, orPart, prePart, prList_single, prList_cons_cons]
+
+example (A B C D : Cond ColRef) :
+    (Loose.plain [[A, B, C]] [D]).tree = .or [.and [A, B, C], D]
+    ∧ (Loose.neg [] [A] (.plain [[B]] [C])).tree = .and [A, .not (.or [B, C])] := ⟨rfl, rfl⟩
+
+/-- lexer level, every spelling ("numeric, string, date and regex operands … all comparison
+operators"): `spells w t` is the exact decidable predicate "the word `w` is a spelling of token `t`":
+* connectives `and & &&`, `or | ||`, `not !`; `from where report * . ( )`; the nine operator lexemes
+  `= == != ~ !~ <= < >= >` (keywords are lower case only: `FROM` is an identifier, see the example
+  below);
+* strings and regex literals in double or single quotes whose content is `wellQuoted` for that
+  quote (no bare quote; every backslash followed by a character; the content is taken verbatim — the
+  language has no regex flags);
+* every date spelling of the two date classes: `isYMDLexeme s` / `isDMYLexeme s` — the class's matcher
+  (`[0-9]{4}-month(-day)?(time)?`, `(day-)?month-year(time)?` with 1–2 digit or named months, 2/4 digit
+  years, the three time forms and any white space inside) consumes exactly `s`; `now`, `:today`;
+* integers `[+-]?[0-9]+` (the lexer has no float class: `1.5` is INT DOT INT);
+* identifiers `[a-zA-Z][-_a-zA-Z0-9]*` and qualified `rel.col` that no earlier class claims
+  (`plainIdent`: not keyword-prefixed, not starting with a month name); a leading `:` is not part of
+  any identifier (only `:today` starts with it).
+For every list of such words, each followed by one space, where a date is followed by nothing or by
+a word that does not start with `(` or a digit, the lexer model returns exactly the tokens. -/
+theorem lex_spelled (ps : List (List Char × LTok)) (n : Nat) (hn : ps.length < n)
+    (hp : ∀ p ∈ ps, spells p.1 p.2 = true) (hs : seqOKW ps = true) :
+    lexLine n (renderW (ps.map (·.1))) = .ok (ps.map (·.2)) :=
+  lexLine_words ps n hn hp hs
+
+/-- characters to query, for every spelling: if the spelled tokens are those of a printed query
+(`toTok`, with `int()` and `tsdb.cast` as parameters), lexing the text and parsing the tokens returns
+the query. -/
+theorem lex_spelled_then_parse (iv : List Char → Int) (dv : List Char → Option Nat)
+    (ps : List (List Char × LTok)) (hp : ∀ p ∈ ps, spells p.1 p.2 = true) (hs : seqOKW ps = true)
+    (proj : Proj) (rels : List String) (ws : List (Cond ColRef))
+    (hq : (ps.map (·.2)).map (toTok iv dv) = printQuery proj rels ws)
+    (hproj : ProjOK proj rels) (hw : ∀ w ∈ ws, nf w = true) :
+    ∃ toks, lexLine (ps.length + 1) (renderW (ps.map (·.1))) = .ok toks ∧
+      parseSelect (3 * ps.length) (toks.map (toTok iv dv))
+        = .ok { proj := proj, rels := rels, cond := whereCond ws } := by
+  refine ⟨ps.map (·.2), lex_spelled ps _ (Nat.lt_succ_self _) hp hs, ?_⟩
+  rw [hq]
+  apply parse_print_select proj rels ws hproj hw
+  rw [← hq, List.length_map, List.length_map]
+  exact Nat.le_refl _
+
+/-- every date spelling the generators use is covered by the predicate (the two invalid calendar
+dates included: validity is `tsdb.cast`'s business, not the lexer's) -/
+example : ∀ s ∈ ([['2', '0', '2', '0', '-', '0', '1', '-', '0', '1'],
+       ['2', '0', '2', '0', '-', '1', '-', '1'],
+       ['2', '0', '2', '0', '-', 'j', 'a', 'n', '-', '0', '1'],
+       ['1', '-', 'j', 'a', 'n', '-', '2', '0', '2', '0'],
+       ['0', '1', '-', '0', '1', '-', '2', '0', '2', '0'],
+       ['j', 'a', 'n', '-', '2', '0', '2', '0'],
+       ['1', '-', '1', '-', '2', '0'],
+       ['2', '0', '2', '0', '-', '0', '2', '-', '0', '2', ' ', '1', '0', ':', '3', '0', ':', '0', '0'],
+       ['2', '0', '2', '0', '-', '0', '2', '-', '0', '2', ' ', '(', '1', '0', ':', '3', '0', ')'],
+       ['2', '0', '2', '0', '-', '0', '2', '-', '0', '2', '(', '1', '0', ':', '3', '0', ':', '0', '0', ')'],
+       ['2', '-', 'f', 'e', 'b', '-', '2', '0', '2', '0', ' ', '(', '1', '0', ':', '3', '0', ':', '0', '0', ')'],
+       ['2', '-', 'f', 'e', 'b', '-', '2', '0', '2', '0', ' ', '1', '0', ':', '3', '0', ':', '0', '0'],
+       ['1', '5', '-', 'm', 'a', 'r', '-', '9', '9'],
+       ['1', '9', '9', '9', '-', '0', '3', '-', '1', '5'],
+       ['2', '0', '2', '1', '-', '0', '3'],
+       ['m', 'a', 'r', '-', '2', '0', '2', '1'],
+       ['2', '0', '1', '9', '-', '1', '2', '-', '3', '1', ' ', '2', '3', ':', '5', '9', ':', '5', '9'],
+       ['2', '0', '2', '0', '-', '0', '6', '-', '1', '5'],
+       ['2', '0', '2', '1', '-', '3', '-', '1', ' ', '(', '0', '0', ':', '0', '0', ':', '0', '1', ')'],
+       ['2', '0', '2', '0', '-', '1', '3', '-', '4', '5'],
+       ['3', '0', '-', 'f', 'e', 'b', '-', '2', '0', '2', '0']] : List (List Char)), (isYMDLexeme s || isDMYLexeme s) = true := by decide
+
+/-- keywords are case-sensitive: `FROM` is a plain identifier; `:col` is not a token; no floats -/
+example : plainIdent ['F', 'R', 'O', 'M'] = true ∧ lexAt [':', 'c', 'o', 'l'] = none
+    ∧ lexLine 9 ['1', '.', '5'] = .ok [.int ['1'], .fix .dot, .int ['5']] :=
+  ⟨by decide, by decide, by rfl⟩
 
 /-- lexer level ("numeric, string, date and regex operands … parsing the text of any condition
 tree returns that tree", the character half): for every list of tokens from the printer's alphabet
